@@ -8,7 +8,7 @@
 From ClapModel Require Import Base.Bytes Base.Machine Base.Utf8 Lex.OsStrExtModel Lex.OsStrExtProofs.
 From ClapModel Require Import Parse.Cmd Parse.Build Parse.Valid Parse.Matcher Parse.Errors Parse.Validator Parse.Parser.
 From ClapModel Require Import ParseProofs.Actions ParseProofs.ActionsLoop ParseProofs.Spelling ParseProofs.Unparse
-                              ParseProofs.UnparseProofs ParseProofs.UnparseLift ParseProofs.UnparseX.
+                              ParseProofs.UnparseProofs ParseProofs.UnparseLift ParseProofs.UnparseX ParseProofs.Escape.
 From Coq Require Import ZArith Lia List Bool.
 From RecordUpdate Require Import RecordSet.
 Import RecordSetNotations.
@@ -22,14 +22,15 @@ Proof.
   apply andb_prop in H. destruct H as [H H6]. apply andb_prop in H. destruct H as [H H5].
   apply andb_prop in H. destruct H as [H _]. apply andb_prop in H. destruct H as [H _].
   apply andb_prop in H. destruct H as [H1 H2].
-  rewrite H5, H6, H1, H2. cbn [andb]. apply orb_true_r.
+  rewrite H5, H6, H1, H2. cbn [andb]. rewrite !orb_true_r. reflexivity.
 Qed.
 Lemma conv_convx c : conv c = true -> convx c = true.
 Proof.
   unfold conv, convx. intros H.
   apply andb_prop in H. destruct H as [H H5]. apply andb_prop in H. destruct H as [H H4].
   apply andb_prop in H. destruct H as [H H3]. apply andb_prop in H. destruct H as [H1 H2].
-  rewrite H1, H2, H4, H5. cbn [andb]. rewrite !andb_true_r.
+  unfold low_index_mults_any. unfold low_index_multiple in H5.
+  rewrite H1, H2, H4. destruct (existsb _ (positionals c)); [discriminate H5|]. cbn [andb negb]. rewrite !andb_true_r.
   apply forallb_forall. intros a Ha. rewrite forallb_forall in H3. apply conv_arg_convx_arg. apply H3. exact Ha.
 Qed.
 
@@ -38,29 +39,39 @@ Variable c : cmd.
 Hypothesis Hx : convx c = true.
 
 Lemma convx_parts : assert_app c = true /\ is_set s_sub_precedence c = false /\ forallb convx_arg (c_args c) = true
-  /\ is_set s_allow_missing_pos c = false /\ low_index_multiple c = false.
+  /\ is_set s_allow_missing_pos c = false /\ low_index_mults_any c = false.
 Proof.
   unfold convx in Hx.
   apply andb_prop in Hx. destruct Hx as [H H5]. apply andb_prop in H. destruct H as [H H4].
   apply andb_prop in H. destruct H as [H H3]. apply andb_prop in H. destruct H as [H1 H2].
   split; [exact H1|]. split; [destruct (is_set s_sub_precedence c); [discriminate|reflexivity]|].
   split; [exact H3|]. split; [destruct (is_set s_allow_missing_pos c); [discriminate|reflexivity]|].
-  destruct (low_index_multiple c); [discriminate|reflexivity].
+  destruct (low_index_mults_any c); [discriminate|reflexivity].
 Qed.
 Lemma convx_app : assert_app c = true.
 Proof. apply convx_parts. Qed.
 Lemma convx_sp : is_set s_sub_precedence c = false.
 Proof. apply convx_parts. Qed.
 Lemma convx_args a : In a (c_args c) ->
-  a_last a = false /\ a_tva a = false /\ (a_index a <> None -> a_hyphen a = false /\ a_negnum a = false).
+  (a_index a = None -> a_last a = false /\ a_tva a = false) /\
+  (a_index a <> None -> a_hyphen a = false /\ a_negnum a = false).
 Proof.
   intros Ha. destruct convx_parts as [_ [_ [H _]]].
   rewrite forallb_forall in H. specialize (H a Ha). unfold convx_arg in H.
-  apply andb_prop in H. destruct H as [H H3]. apply andb_prop in H. destruct H as [H1 H2].
-  destruct (a_last a); [discriminate|]. destruct (a_tva a); [discriminate|]. split; [reflexivity|]. split; [reflexivity|].
-  intros Hi. destruct (a_index a); [|congruence]. cbn [is_some negb orb] in H3.
-  apply andb_prop in H3. destruct H3 as [H3 H4].
-  destruct (a_hyphen a); [discriminate|]. destruct (a_negnum a); [discriminate|]. split; reflexivity.
+  apply andb_prop in H. destruct H as [H1 H3]. split.
+  - intros Hi. rewrite Hi in H1. cbn [is_some orb] in H1. apply andb_prop in H1. destruct H1 as [H1 H2].
+    destruct (a_last a); [discriminate|]. destruct (a_tva a); [discriminate|]. split; reflexivity.
+  - intros Hi. destruct (a_index a); [|congruence]. cbn [is_some negb orb] in H3.
+    apply andb_prop in H3. destruct H3 as [H3 H4].
+    destruct (a_hyphen a); [discriminate|]. destruct (a_negnum a); [discriminate|]. split; reflexivity.
+Qed.
+(** no [last(true)] positional: the look-ahead test of the counter correction is off for every counter value *)
+Lemma convx_low pc : ((pc + 1 =? positional_count c)
+    && existsb (fun a => a_is_multiple a && negb (positional_count c =? opt_default 0 (a_index a))) (positionals c)
+    && match last (map Some (positionals c)) None with Some p => negb (a_last p) | None => false end) = false.
+Proof.
+  destruct convx_parts as [_ [_ [_ [_ H]]]]. unfold low_index_mults_any in H.
+  rewrite <- andb_assoc. rewrite H. apply andb_false_r.
 Qed.
 
 Lemma find_arg_self_x a : In a (c_args c) -> find_arg c (a_id a) = Some a.
@@ -319,7 +330,7 @@ Proof.
   { destruct sa as [a0|]; [|reflexivity]. destruct Hsa as [H1 H2]. rewrite H1, H2. reflexivity. }
   rewrite E1.
   assert (PF : forall a0, get_pos c pos = Some a0 -> a_hyphen a0 = false /\ a_negnum a0 = false).
-  { intros a0 G. destruct (convx_args a0 (get_pos_in c _ _ G)) as [_ [_ H]]. apply H.
+  { intros a0 G. destruct (convx_args a0 (get_pos_in c _ _ G)) as [_ H]. apply H.
     rewrite (get_pos_index c _ _ G). discriminate. }
   assert (E2 : match get_pos c pos with Some a => a_negnum a | None => false end = false).
   { destruct (get_pos c pos) as [a0|] eqn:G; [|reflexivity]. apply (PF a0 eq_refl). }
@@ -433,14 +444,13 @@ Qed.
 Lemma pos_branch_x (v : bytes) (rest : list bytes) pst pos vaf st a :
   match pst with PSOpt _ => False | _ => True end ->
   (match pst with PSValuesDone => nosub c v = true | _ => True end) -> value_ok v = true -> get_pos c pos = Some a ->
-  check_terminator a v = false ->
+  check_terminator a v = false -> a_last a = false -> a_tva a = false ->
   parse_loop c (v :: rest) (mkL pst pos vaf false) st = pos_step_k c a v rest pos st.
 Proof.
-  intros Hp Hn Hv Hg Hterm. destruct (value_ok_parts v Hv) as [E1 [E2 E3]].
-  destruct convx_parts as [_ [Hsp [_ [Hamp Hlow]]]].
+  intros Hp Hn Hv Hg Hterm Hlast Htva. destruct (value_ok_parts v Hv) as [E1 [E2 E3]].
+  destruct convx_parts as [_ [Hsp [_ [Hamp _]]]].
   pose proof (get_pos_in c pos a Hg) as Ha.
-  destruct (convx_args a Ha) as [Hlast [Htva _]].
-  unfold low_index_multiple in Hlow.
+  pose proof (convx_low pos) as Hlow.
   cbn [parse_loop]. cbn [l_trailing l_pst l_vaf l_pos].
   assert (Hs : (if is_set s_sub_precedence c || match pst with PSValuesDone => true | _ => false end
                 then possible_subcommand c v vaf else None) = None).
@@ -448,7 +458,7 @@ Proof.
   rewrite Hs, E1, E2, E3. cbn [rbind]. cbn [l_trailing l_pst l_vaf l_pos].
   unfold pos_step_k.
   destruct pst as [|i|i]; [|contradiction|];
-    rewrite Hlow, Hamp, !andb_false_r; cbn [andb orb rbind]; rewrite Hg, Hlast, Htva; cbn [andb orb];
+    rewrite Hlow, Hamp; cbn [andb orb rbind]; rewrite Hg, Hlast, Htva; cbn [andb orb];
     rewrite Hterm; reflexivity.
 Qed.
 
@@ -479,25 +489,29 @@ Proof.
 Qed.
 
 Lemma loop_pos_values_x a (rest : list bytes) pos st : get_pos c pos = Some a -> a_multiple_values a = true ->
+  a_last a = false -> a_tva a = false ->
   forall (vs vs0 : list bytes), forallb value_ok vs = true -> forallb (fun v => negb (check_terminator a v)) vs = true ->
   parse_loop c (vs ++ rest) (mkL (PSPos (a_id a)) pos true false) (set_pending (a_id a) IIndex vs0 st) =
   parse_loop c rest (mkL (PSPos (a_id a)) pos true false) (set_pending (a_id a) IIndex (vs0 ++ vs) st).
 Proof.
-  intros Hg Hm. induction vs as [|v vs IH]; intros vs0 Hv Ht.
+  intros Hg Hm Hlast Htva. induction vs as [|v vs IH]; intros vs0 Hv Ht.
   - cbn [app]. rewrite app_nil_r. reflexivity.
   - cbn [forallb] in Hv. apply andb_prop in Hv. destruct Hv as [Hv Hvs]. cbn [app].
     cbn [forallb] in Ht. apply andb_prop in Ht. destruct Ht as [Ht Hts].
     assert (Ht' : check_terminator a v = false) by (destruct (check_terminator a v); [discriminate|reflexivity]).
-    rewrite (pos_branch_x v (vs ++ rest) (PSPos (a_id a)) pos true _ a I I Hv Hg Ht').
+    rewrite (pos_branch_x v (vs ++ rest) (PSPos (a_id a)) pos true _ a I I Hv Hg Ht' Hlast Htva).
     rewrite (pos_more c v (vs ++ rest) pos st a vs0 Hm). rewrite (IH (vs0 ++ [v]) Hvs Hts).
     rewrite <- app_assoc. reflexivity.
 Qed.
 
 Lemma posx_ok_parts pst o (vs : list bytes) : posx_ok pst o vs = true ->
-  pos_ok pst o vs = true /\ exists a, o = Some a /\ forallb (fun v => negb (check_terminator a v)) vs = true.
+  pos_ok pst o vs = true /\ exists a, o = Some a /\ forallb (fun v => negb (check_terminator a v)) vs = true
+    /\ a_last a = false /\ a_tva a = false.
 Proof.
   unfold posx_ok. intros H. apply andb_prop in H. destruct H as [H1 H2]. split; [exact H1|].
-  destruct o as [a|]; [|discriminate]. exists a. split; [reflexivity|exact H2].
+  destruct o as [a|]; [|discriminate]. exists a. split; [reflexivity|].
+  apply andb_prop in H2. destruct H2 as [H2 H4]. apply andb_prop in H2. destruct H2 as [H2 H3].
+  split; [exact H2|]. destruct (a_last a); [discriminate|]. destruct (a_tva a); [discriminate|]. split; reflexivity.
 Qed.
 
 Lemma loop_pos_x (vs : list bytes) (rest : list bytes) pst pos vaf st :
@@ -506,7 +520,7 @@ Lemma loop_pos_x (vs : list bytes) (rest : list bytes) pst pos vaf st :
   (do st1 <- apply_item c pos (ItPos vs) st;
    parse_loop c rest (mkL (item_pst c pos (ItPos vs)) (item_pos c pos (ItPos vs)) true false) st1).
 Proof.
-  intros Hi Hn Hokx. destruct (posx_ok_parts _ _ _ Hokx) as [Hok [a0 [Ea0 Hts]]].
+  intros Hi Hn Hokx. destruct (posx_ok_parts _ _ _ Hokx) as [Hok [a0 [Ea0 [Hts [Hlast Htva]]]]].
   destruct (pos_ok_parts _ _ _ Hok) as [a [v [vs' [Hg [-> [Hv [Hm Hp]]]]]]].
   rewrite Hg in Ea0. inversion Ea0; subst a0.
   cbn [apply_item item_pst item_pos]. rewrite Hg.
@@ -514,12 +528,12 @@ Proof.
   cbn [forallb] in Hv. apply andb_prop in Hv. destruct Hv as [Hv Hvs]. cbn [app].
   cbn [forallb] in Hts. apply andb_prop in Hts. destruct Hts as [Ht Hts].
   assert (Ht' : check_terminator a v = false) by (destruct (check_terminator a v); [discriminate|reflexivity]).
-  rewrite (pos_branch_x v (vs' ++ rest) pst pos vaf st a); [|destruct pst; tauto|destruct pst; tauto|exact Hv|exact Hg|exact Ht'].
+  rewrite (pos_branch_x v (vs' ++ rest) pst pos vaf st a); [|destruct pst; tauto|destruct pst; tauto|exact Hv|exact Hg|exact Ht'|exact Hlast|exact Htva].
   rewrite (pos_first_x v (vs' ++ rest) pst pos st a Hg); [|destruct pst; tauto|exact Hi].
   destruct Hm as [Hm| ->].
   - assert (Hmul : a_is_multiple a = true) by (unfold a_is_multiple; rewrite Hm; reflexivity).
     rewrite Hmul. unfold sep_step. destruct (resolve_pending c st) as [st1|e s|n]; cbn [rbind]; try reflexivity.
-    rewrite (loop_pos_values_x a rest pos st1 Hg Hm vs' [v] Hvs Hts). reflexivity.
+    rewrite (loop_pos_values_x a rest pos st1 Hg Hm Hlast Htva vs' [v] Hvs Hts). reflexivity.
   - cbn [app]. reflexivity.
 Qed.
 
@@ -556,7 +570,7 @@ Proof.
     apply opt_pst_okx; [apply (get_short_in c o a Hg)|exact Hcl].
   - destruct (get_pos c pos) as [a|] eqn:Hg; [|exact I]. destruct (a_is_multiple a); [|exact I].
     exists a. split; [apply find_arg_self_x; apply (get_pos_in c pos a Hg)|].
-    destruct (convx_args a (get_pos_in c pos a Hg)) as [_ [_ HH]]. apply HH. rewrite (get_pos_index c pos a Hg). discriminate.
+    destruct (convx_args a (get_pos_in c pos a Hg)) as [_ HH]. apply HH. rewrite (get_pos_index c pos a Hg). discriminate.
 Qed.
 
 Lemma loop_item_x it (rest : list bytes) pst pos vaf st :
